@@ -44,6 +44,11 @@ def check(run, prog, tier):
     run.rule("C05-U7", "methods that compute under energy_units('int') read units-managed properties only inside "
                        "that protection", minimum=1)
     rule_U7(run, prog)
+    run.rule("C05-U8", "bath-function constructors and builders store energy parameters independently of the units in "
+                       "which they were supplied (unit-state typing, shared with C09-E)", minimum=10)
+    from . import c09
+    from ..report import RuleProxy
+    c09.rule_E(RuleProxy(run, "C05-U8"), prog)
 
 
 def rule_U7(run, prog):
